@@ -237,7 +237,7 @@ def parse_expr(s):
 
 
 KEYWORDS = ('spec', 'define', 'axiom', 'lemma', 'func', 'requires', 'ensures', 'assigns', 'allocates',
-            'loop', 'invariant', 'decreases', 'flag', 'ghostvar', 'call', 'import', 'at', 'property', 'end', 'step', 'send', 'guarded', 'uses', 'recv', 'return', 'ghostset', 'store')
+            'loop', 'invariant', 'decreases', 'flag', 'ghostvar', 'call', 'import', 'at', 'property', 'end', 'step', 'send', 'guarded', 'uses', 'recv', 'return', 'ghostset', 'store', 'entry')
 
 
 def _label(s):
@@ -318,6 +318,12 @@ def parse_contract_text(text, fname='?'):
             elif kw == 'loop':
                 k = int(rest.strip())
                 curloop = cur['loops'].setdefault(k, {'invariant': [], 'decreases': None, 'assigns': None, 'step': []})
+            elif kw == 'entry':
+                # entry [label] expr: a precondition the body is verified under that is NOT asserted at call sites
+                # (reported in evidence as an unchecked entry assumption of this function)
+                lab, r = _label(rest)
+                cur.setdefault('entry', []).append((lab, parse_expr(r), r))
+                curloop = None
             elif kw == 'requires':
                 lab, r = _label(rest)
                 cur['requires'].append((lab, parse_expr(r), r))
